@@ -229,11 +229,46 @@ def indices_body(c):
     return res
 
 
+@st.composite
+def shared_case(draw):
+    c = draw(phylo.like_case(families=("nucleotide", "nucleotide", "aa", "general"), nmax=5))
+    c["modes"] = draw(st.permutations(["amb", "noamb", "states"]))[: draw(st.integers(2, 3))]
+    return c
+
+
+def shared_body(c):
+    """several likelihoods with different tip representations built in ONE specification on the same
+    SitePattern / tree / models (referenced by id): each must equal its own reference value"""
+    nontrivial, key, labels, tags = classify(c)
+    res = Res(nontrivial=nontrivial, key=(key, c["modes"]), labels=labels + ("shared",) + tuple(c["modes"]), tags=dict(tags, shared=True, tip="+".join(c["modes"])))
+    spec = phylo.like_spec(dict(c, tip=c["modes"][0]))
+    first = spec[-1]
+    dic = {}
+    for el in spec:
+        phylo.tt.build(el, dic)
+    ids = ["like"]
+    for i, mode in enumerate(c["modes"][1:], start=2):
+        lk = {"id": "like%d" % i, "type": "TreeLikelihoodModel", "tree_model": "tree", "site_model": "site", "substitution_model": "subst", "site_pattern": "sp",
+              "use_ambiguities": mode == "amb", "use_tip_states": mode == "states"}
+        if "branch_model" in first:
+            lk["branch_model"] = "clock"
+        phylo.tt.build(lk, dic)
+        ids.append(lk["id"])
+    for lid, mode in zip(ids, c["modes"]):
+        cc = dict(c, tip=mode)
+        v = arr(dic[lid]())
+        ref = phylo.reference(cc, dic)
+        if v.size != 1 or not np.isfinite(v).all() or abs(float(v.reshape(-1)[0]) - ref) > 1e-9 * max(1.0, abs(ref)) + conditioning(cc, dic):
+            return res.fail("mismatch", {"mode": mode, "position": lid, "value": v.tolist(), "reference": ref, "modes": list(c["modes"])})
+    return res
+
+
 def subchecks(tier):
     return [
         Sub("random", body, strategy=phylo.like_case, quick=1500, thorough=30000, pretags=pretags),
         Sub("all_topologies", body, enumerate=_topology_cases, expand=expand_topology_case, exhaustive=(tier == "thorough"), pretags=pretags),
         Sub("large", body, strategy=large_case, quick=150, thorough=3000, pretags=pretags),
+        Sub("shared", shared_body, strategy=shared_case, quick=200, thorough=3000, pretags=pretags),
         Sub("indices", indices_body, strategy=indices_case, quick=200, thorough=3000, pretags=pretags),
         Sub("audit_oracle", audit_body, strategy=lambda: phylo.like_case(families=("nucleotide", "general"), nmax=6), quick=40, thorough=400),
     ]
